@@ -48,7 +48,7 @@ def oracle(tier, rng, deep=False):
     """prox output of the REAL objects vs grid minimisation of the documented prox objective"""
     failures, samples = [], []
     ev = nontriv = 0
-    nrep = 6 if tier == "quick" and not deep else 30
+    nrep = 6 if tier == "quick" and not deep else (18 if tier == "quick" else 30)   # quick + broken obligation: 3x the quick search
     xs = [k / 8 for k in range(-32, 33)]
     fine = np.linspace(-6, 6, 4801)
     for _ in range(nrep):
